@@ -172,6 +172,8 @@ def find_stmt_of(fnode, target: ast.AST):
     """The statement (as recorded by flow) that syntactically contains `target`."""
     res = flow(fnode)
     best = None
+    if id(target) in res.at:
+        return target, res.at[id(target)]
     for st, facts in res.stmts:
         if isinstance(st, (ast.If, ast.For, ast.While, ast.With, ast.Try, ast.Match)):
             # compound: only the header expressions belong to it
